@@ -34,20 +34,8 @@ pub mod math {
 #[verifier::external_body]
 pub struct ExParseIntError(core::num::ParseIntError);
 
-#[verifier::external_trait_specification]
-pub trait ExFromStr: Sized {
-    type ExternalTraitSpecificationFor: core::str::FromStr;
-    type Err;
-    fn from_str(s: &str) -> Result<Self, Self::Err>;
-}
-
-/// What `str::parse::<F>` accepts: left uninterpreted (std's number parser is not verified here).
-pub uninterp spec fn parse_spec<F>(s: Seq<char>) -> Option<F>;
-
-pub assume_specification<F: core::str::FromStr>[ str::parse::<F> ](s: &str) -> (r: Result<F, <F as core::str::FromStr>::Err>)
-    ensures
-        r is Ok <==> parse_spec::<F>(s@) is Some,
-        r is Ok ==> r->Ok_0 == parse_spec::<F>(s@)->0;
+/// The integer a variable value denotes (yash-arith/src/eval.rs, parse_variable_value): uninterpreted.
+pub uninterp spec fn value_spec(s: Seq<char>) -> Option<i64>;
 
 // ---- mathematical semantics ---------------------------------------------------
 pub open spec fn abs(x: int) -> int { if x < 0 { -x } else { x } }
